@@ -12,10 +12,6 @@ Theorem lock_array_mutex size fuel ths c :
                (occ cell (Conc.trace c) = 1 -> get_spin (Conc.shared c) cell = true).
 Proof. apply locks_mutex. Qed.
 
-(** hints that are congruent modulo the array size are guarded by the same cell *)
-Lemma lock_array_same_cell size h1 h2 :
-  Nat.modulo h1 size = Nat.modulo h2 size -> LocksArray.sel size h1 = LocksArray.sel size h2.
-Proof. intros H. exact H. Qed.
-
+(** the cell is a valid index *)
 Lemma lock_array_cell_in_range size h : (0 < size)%nat -> (LocksArray.sel size h < size)%nat.
 Proof. intros H. unfold LocksArray.sel. apply Nat.mod_upper_bound. lia. Qed.
